@@ -35,4 +35,10 @@ CLAIMED = {
              'whose fixed-point image does not fit and the unsigned-arithmetic tail of rem_euclid_int); zero divisor: None / documented panic; no check fires. '
              'The div_euclid family was repaired in /repo (fix 44b358d) after the check reproduced the defect. Correspondence: 19 public methods, both profiles.',
         design_ref='7/C07', note=COMMON_NOTE, technique='Lean 4 proof over executable model + differential correspondence'),
+    'C18': dict(
+        text='Theorem SfxProps.C18.holds: for every layout, every start value and every well-formed program of Wrapping<F> operations of ANY length, the modelled run '
+             'equals the documented run (exact result reduced mod 2^n at each step, shift amounts reduced mod the width, panic only for a zero divisor) and is identical '
+             'under both build profiles; built on the C01/C02/C06/C07 theorems. Correspondence: programs of 1..12 steps over every impl variant (by value / by reference / '
+             'assigning, 12 shift-amount types, integer right-hand sides, sum/product) in both profiles. from_num(float)/parsing forwarders are covered by C05/C08 models, not here.',
+        design_ref='7/C18', note=COMMON_NOTE, technique='Lean 4 proof (induction over programs) over executable model + differential correspondence'),
 }
